@@ -104,8 +104,15 @@ def check_stats(case, result, rec, log, cap):
         chi = ssq + float(np.sum(np.square(pens)))
         # penalties are functions of the clps: conditioning of the linear solves enters (kappa <= 1e8 admitted above)
         kmax = max(r["kappa"] for r in rr.values())
-        if rel(result.chi_square, chi) > max(1e-9, 64 * np.finfo(float).eps * kmax):
+        # (equal-area penalties are differences of sums of clps: as in C02 their error scales with kappa^2)
+        if rel(result.chi_square, chi) > max(1e-9, 64 * np.finfo(float).eps * (min(kmax, 1e150) ** 2 if pens else kmax)):
             b.append(("chi_square", f"chi_square {result.chi_square!r} != sum of squared (weighted) residuals of the result datasets + squared penalties {chi!r}"))
+        # internal consistency, free of the reference's conditioning: the reported penalties themselves
+        ap_ = [float(x) for grp in (result.additional_penalty or []) for x in np.atleast_1d(grp)]
+        if len(ap_) == len(pens) and np.all(np.isfinite(ap_)):
+            chi_own = ssq + float(np.sum(np.square(ap_)))
+            if rel(result.chi_square, chi_own) > 1e-9:
+                b.append(("chi_square", f"chi_square {result.chi_square!r} != sum of squared (weighted) residuals of the result datasets + squared reported penalties {chi_own!r}"))
         nclp = sum(rr[g]["n_clps"] for g in groups)
         if result.number_of_clps != nclp:
             b.append(("number_of_clps", f"{result.number_of_clps} != reference count {nclp} (coefficients left after constraints/relations per index)"))
